@@ -1,0 +1,39 @@
+//go:build verif
+
+// Package verifhook re-exports internal types to the external verification harness.
+// It exists only under build tag verif.
+package verifhook
+
+import (
+	"github.com/shogo82148/goat/internal/curve256k1"
+	fe256 "github.com/shogo82148/goat/internal/curve256k1/field"
+	"github.com/shogo82148/goat/internal/edwards448"
+	fe448 "github.com/shogo82148/goat/internal/edwards448/field"
+)
+
+type (
+	Fe448         = fe448.Element
+	Fe256k1       = fe256.Element
+	Ed448Point    = edwards448.Point
+	Ed448Scalar   = edwards448.Scalar
+	K1Point       = curve256k1.Point
+	K1Jacobian    = curve256k1.PointJacobian
+	K1ScalarState = curve256k1.VerifScalar
+)
+
+var (
+	Ed448ScMulAdd     = edwards448.VerifScMulAdd
+	Ed448ScReduce     = edwards448.VerifScReduce
+	Ed448IsReduced    = edwards448.VerifIsReduced
+	Ed448LookupSelect = edwards448.VerifLookupSelect
+	Ed448NewIdentity  = edwards448.NewIdentityPoint
+	Ed448NewGenerator = edwards448.NewGeneratorPoint
+	Ed448NewScalar    = edwards448.NewScalar
+	K1NormalizeScalar = curve256k1.VerifNormalizeScalar
+	K1ScalarLsh8      = curve256k1.VerifScalarLsh8
+	K1ScalarAdd8      = curve256k1.VerifScalarAdd8
+	K1ScalarReduce    = curve256k1.VerifScalarReduce
+	K1ScalarBytes     = curve256k1.VerifScalarBytes
+	K1LookupSelect    = curve256k1.VerifLookupSelect
+	K1IsOnCurve       = curve256k1.IsOnCurve
+)
